@@ -487,6 +487,9 @@ pub fn run(sc: &Scenario, blobs: &[(String, Vec<u8>)], lv: &Levels) -> CaseOut {
 
 /// `{"driver":"ift","scenario":name,"blob":index|null,"off":o,"bytes":hex,"full":bool}`
 pub fn drive(spec: &Value) -> CaseOut {
+    if spec["family"].is_string() {
+        return crate::iftf1::drive(spec);
+    }
     let scs = scenarios();
     let Some(sc) = scs.iter().find(|s| Some(s.name) == spec["scenario"].as_str()) else {
         return crate::bad_case(format!("unknown ift scenario {spec}"));
